@@ -190,3 +190,108 @@ func VerifH19cSegmentation() {
 	}
 	verifrt.Observe("seg", cut1, cut2, ok)
 }
+
+type zzAddrOf string
+
+func (zzAddrOf) Network() string  { return "tcp" }
+func (a zzAddrOf) String() string { return string(a) }
+
+type zzPeerConn struct {
+	zzSegConn
+	addr string
+}
+
+func (c *zzPeerConn) RemoteAddr() net.Addr { return zzAddrOf(c.addr) }
+
+type zzQueueListener struct {
+	conns []net.Conn
+	next  int
+}
+
+func (l *zzQueueListener) Accept() (net.Conn, error) {
+	c := l.conns[l.next]
+	l.next++
+	return c, nil
+}
+func (l *zzQueueListener) Close() error   { return nil }
+func (l *zzQueueListener) Addr() net.Addr { return zzAddr{} }
+
+// VerifH19cLaterConnections: what was recorded about one peer's ClientHello is not changed by
+// the bytes later peers send on other connections of the same listener (the capture buffers are
+// pooled and reused).
+func VerifH19cLaterConnections() {
+	L := 43
+	hello := verifrt.Bytes("hello", L)
+	mk := func(h []byte, addr string, cut int) *zzPeerConn {
+		stream := append([]byte{22, 3, 1, byte(len(h) >> 8), byte(len(h))}, h...)
+		return &zzPeerConn{zzSegConn: zzSegConn{data: stream, cuts: []int{cut}}, addr: addr}
+	}
+	later := verifrt.IntRange("later-connections", 1, 2)
+	conns := []net.Conn{mk(hello, "192.0.2.1:1", 5+L)}
+	for i := 0; i < later; i++ {
+		other := make([]byte, L+i)
+		for j := range other {
+			other[j] = 0xEE
+		}
+		conns = append(conns, mk(other, "192.0.2.2:"+string(rune('1'+i)), []int{5 + L + i, 3, 20}[verifrt.Choose("cut", 3)]))
+	}
+	ln := newTLSListener(&zzQueueListener{conns: conns}, &tls.Config{})
+	readAll := func(total int) {
+		tc, err := ln.Accept()
+		if err != nil {
+			verifrt.Fail("accept")
+			return
+		}
+		c := tc.(*tls.Conn).NetConn()
+		got := 0
+		for i := 0; i < 4 && got < total; i++ {
+			b := make([]byte, 128)
+			n, err := c.Read(b)
+			if err != nil {
+				verifrt.Fail("read-error")
+			}
+			got += n
+		}
+	}
+	readAll(5 + L)
+	first, ok := ln.helloInfos["192.0.2.1:1"]
+	verifrt.Assert(ok, "hello-recorded")
+	for i := 0; i < later; i++ {
+		readAll(5 + L + i)
+	}
+	want := parseRawClientHello(append([]byte(nil), hello...))
+	again := ln.helloInfos["192.0.2.1:1"]
+	same := func(got rawHelloInfo, label string) {
+		verifrt.Assert(got.Version == want.Version, label)
+		verifrt.Assert(len(got.CipherSuites) == len(want.CipherSuites) && len(got.Extensions) == len(want.Extensions) &&
+			len(got.CompressionMethods) == len(want.CompressionMethods) && len(got.Curves) == len(want.Curves) && len(got.Points) == len(want.Points), label)
+		for i := range want.CipherSuites {
+			if i < len(got.CipherSuites) {
+				verifrt.Assert(got.CipherSuites[i] == want.CipherSuites[i], label)
+			}
+		}
+		for i := range want.CompressionMethods {
+			if i < len(got.CompressionMethods) {
+				verifrt.Assert(got.CompressionMethods[i] == want.CompressionMethods[i], label)
+			}
+		}
+		for i := range want.Extensions {
+			if i < len(got.Extensions) {
+				verifrt.Assert(got.Extensions[i] == want.Extensions[i], label)
+			}
+		}
+		for i := range want.Curves {
+			if i < len(got.Curves) {
+				verifrt.Assert(got.Curves[i] == want.Curves[i], label)
+			}
+		}
+		for i := range want.Points {
+			if i < len(got.Points) {
+				verifrt.Assert(got.Points[i] == want.Points[i], label)
+			}
+		}
+	}
+	same(first, "record-still-what-the-peer-sent")
+	same(again, "record-still-what-the-peer-sent")
+	verifrt.Observe("later", later)
+}
